@@ -241,6 +241,18 @@ def jobs(tier, seed):
                 dict(src=src, method='to_pubo' if O.is_spin_name(src) else 'to_puso', nlab=3, deg=3, remap=True, sparse=True))
     for w in ['Q', 'hJ', 'matrix_to_qubo', 'qubo_to_matrix']:
         add('export/%s' % w, 'make_export', dict(which=w))
+    if tier != 'quick':
+        for src in ['QUBO', 'PUBO', 'PCBO', 'QUSO', 'PUSO', 'PCSO']:
+            same = ['to_quso', 'to_puso'] if O.is_spin_name(src) else ['to_qubo', 'to_pubo']
+            for method in same + ['to_enumerated']:
+                if src in ('QUBO', 'QUSO') or method in ('to_qubo', 'to_quso'):
+                    add('method/%s/%s/n3/dense2' % (src, method), 'make_method', dict(src=src, method=method, nlab=3, deg=2, remap=(method == 'to_enumerated')))
+                else:
+                    add('method/%s/%s/n3/dense3' % (src, method), 'make_method', dict(src=src, method=method, nlab=3, deg=3, remap=(method == 'to_enumerated')))
+            cross = ['to_qubo', 'to_pubo'] if O.is_spin_name(src) else ['to_quso', 'to_puso']
+            for method in cross:
+                add('method/%s/%s/n3/sparse/remap' % (src, method), 'make_method', dict(src=src, method=method, nlab=3, deg=2 if (src in ('QUBO', 'QUSO') or method in ('to_qubo', 'to_quso')) else 3,
+                                                                                    remap=True, sparse=(src not in ('QUBO', 'QUSO') and method not in ('to_qubo', 'to_quso'))))
     return J
 
 
